@@ -13,17 +13,23 @@
 (*   abstract state  s = [latest, clock]                                   *)
 (*     latest : key -> [h, n, ttl, t, soft]  the most recent successful    *)
 (*              put per key since the last remove/clear of that key        *)
-(*              (h = identity of the bytes, n = their length, ttl =        *)
-(*              "long"|"short", t = clock value at the put, soft = a later *)
-(*              put of the key reported an error)                          *)
+(*              (h = identity of the bytes, n = their length, ttl = TTL    *)
+(*              class, t = clock value at the put, soft = a later put of   *)
+(*              the key reported an error)                                 *)
 (*     clock  : number of Ticks so far.  Time is logical: a "long" TTL     *)
 (*              (1 h) never ends during a run; a "short" TTL (2 ms) MAY    *)
 (*              have ended at any moment after the put and HAS ended once  *)
 (*              a Tick (sleep of 5 x TTL) has happened after the put.      *)
+(*              The boundary values of the TTL domain are classes of their *)
+(*              own: "zero" (Duration::ZERO) has ended the moment the put  *)
+(*              returns - the value is never served; "ns" (1 ns) is judged *)
+(*              like "short" (no clock is assumed to have advanced between *)
+(*              two calls); "max" (Duration::MAX) never ends, like "long". *)
+(*              No TTL value may make a call panic (PutOk).                *)
 (*   configuration   cfg = [kind, policy, maxe, maxb, dttl, ...]           *)
 (*     kind "mem"|"disk"; policy "lru"|"lfu"|"fifo"|"random"|"ttl";        *)
 (*     maxe = max_entries / max_files; maxb = byte budget, 0 = none;       *)
-(*     dttl = class of the default TTL ("none" counts as long)             *)
+(*     dttl = class of the default TTL ("none": built-in, counts as long)  *)
 (*                                                                         *)
 (* Per operation: XxxR(s, ...) is the next abstract state (a function of   *)
 (* the operation's inputs only) and XxxOk(s, cfg, ..., r) says whether the *)
@@ -56,8 +62,13 @@ C0 == [latest |-> EmptyFn, clock |-> 0]
 
 Has(s, k)      == k \in DOMAIN s.latest
 \* the TTL of k's latest value has certainly ended / may or may not have ended
-Expired(s, k)  == Has(s, k) /\ s.latest[k].ttl = "short" /\ s.latest[k].t < s.clock
-MaybeExp(s, k) == Has(s, k) /\ s.latest[k].ttl = "short" /\ s.latest[k].t = s.clock
+TtlNever   == {"long", "max"}     \* never ends during a run
+TtlBrief   == {"short", "ns"}     \* ended for certain only after the next Tick
+TtlClasses == TtlNever \cup TtlBrief \cup {"zero"}
+EndedEnt(ent, clock)   == ent.ttl = "zero" \/ (ent.ttl \in TtlBrief /\ ent.t < clock)
+UnsureEnt(ent, clock)  == ent.ttl \in TtlBrief /\ ent.t = clock
+Expired(s, k)  == Has(s, k) /\ EndedEnt(s.latest[k], s.clock)
+MaybeExp(s, k) == Has(s, k) /\ UnsureEnt(s.latest[k], s.clock)
 \* a positive answer about k (a value, or contains = TRUE) is possible
 MayHit(s, k)   == Has(s, k) /\ ~Expired(s, k)
 \* the disk cache does not evict (its limits are configured far above the
@@ -65,14 +76,15 @@ MayHit(s, k)   == Has(s, k) /\ ~Expired(s, k)
 \* new instance on the same directory.  The memory cache may always miss.
 MustHit(s, cfg, k) ==
   /\ cfg.kind = "disk" /\ Has(s, k)
-  /\ s.latest[k].ttl = "long" /\ ~s.latest[k].soft
+  /\ s.latest[k].ttl \in TtlNever /\ ~s.latest[k].soft
 
 IsFailure(r) == "err" \in DOMAIN r \/ "outcome" \in DOMAIN r
 NoHit        == [hit |-> FALSE]
 HitOf(ent)   == [hit |-> TRUE, n |-> ent.n, h |-> ent.h]
 IsHit(r)     == "hit" \in DOMAIN r /\ r.hit
 
-DefaultClass(cfg) == IF cfg.dttl = "short" THEN "short" ELSE "long"
+\* class of the TTL a plain put() uses: the configured default_ttl ("none": the built-in 1 h / 24 h)
+DefaultClass(cfg) == IF cfg.dttl \in TtlClasses THEN cfg.dttl ELSE "long"
 
 \* ---- put / put_with_ttl: a successful put defines the latest value -------
 PutR(s, k, h, n, ttl) ==
@@ -122,8 +134,9 @@ Apply(s, cfg, e) ==
                             ELSE PutR(s, e.k, e.vh, e.n, ClassOf(cfg, e))
     [] e.op = "get"      -> GetR(s, e.k)
     [] e.op = "contains" -> ContainsR(s, e.k)
-    [] e.op = "remove"   -> RemoveR(s, e.k)
-    [] e.op = "clear"    -> ClearR(s)
+    \* (a remove / clear that reported a failure is a violation by itself and defines nothing)
+    [] e.op = "remove"   -> IF IsFailure(e.res) THEN s ELSE RemoveR(s, e.k)
+    [] e.op = "clear"    -> IF IsFailure(e.res) THEN s ELSE ClearR(s)
     [] e.op = "tick"     -> TickR(s)
     [] e.op = "restart"  -> RestartR(s)
     [] e.op = "probe"    -> s
@@ -169,8 +182,8 @@ Okay == [ok |-> TRUE]
 Held(m) == DOMAIN m.store
 EntOf(s, k) == s.latest[k]
 Restrict(f, S) == [x \in S |-> f[x]]
-ExpiredEnt(ent, clock) == ent.ttl = "short" /\ ent.t < clock
-MaybeEnt(ent, clock)   == ent.ttl = "short" /\ ent.t = clock
+ExpiredEnt(ent, clock) == EndedEnt(ent, clock)
+MaybeEnt(ent, clock)   == UnsureEnt(ent, clock)
 SizeOf(m, H) == SumOver([k \in H |-> m.store[k].n], H)
 Fits(cfg, m, H) ==
   LimitsApply(cfg) => Cardinality(H) <= cfg.maxe /\ (cfg.maxb > 0 => SizeOf(m, H) <= cfg.maxb)
